@@ -167,3 +167,10 @@ package analysis
 //@   loop out.1 invariant forall N *types.Named :: has(out, N) && done[N] ==> ghost("iotaChecked", out[N]) == 1
 //@   loop out.1 invariant forall N1, N2 *types.Named :: has(out, N1) && has(out, N2) && N1 != N2 ==> out[N1] != out[N2] && ref(out[N1].Members) != ref(out[N2].Members)
 //@   loop out.1 invariant framedField(Enum, Members) && framedField(Enum, IsIota) && framedElems(EnumMember) && framedGhost("iotaChecked")
+
+// ---------------------------------------------------------------- C11 / C07
+
+// accu is the analysis table: the union analysed for a named interface carries that name
+//@ func (*Struct).setImplements
+//@   requires forall N *types.Named :: is(accu[N], *Union) ==> as(accu[N], *Union).name == N
+//@   loop v.1 invariant out == before(out)
